@@ -1644,7 +1644,7 @@ FORMULAS = {
     'C10': ['opforms'],
     'C11': ['opforms'],
     'C09': ['ark_sqrt_ratio_zeta', 'min_sqrt_ratio_zeta', 'min_pow_le_limbs_step', 'min_our_sqrt'],
-    'C13': ['r1cs_compress', 'r1cs_decompress', 'r1cs_elligator', 'r1cs_is_eq', 'r1cs_isqrt', 'r1cs_is_nonnegative', 'r1cs_is_negative', 'r1cs_abs', 'r1cs_alloc_witness', 'opforms'],
+    'C13': ['r1cs_compress', 'r1cs_decompress', 'r1cs_elligator', 'r1cs_is_eq', 'r1cs_isqrt', 'r1cs_is_nonnegative', 'r1cs_is_negative', 'r1cs_abs', 'r1cs_alloc_witness', 'lazy_element', 'lazy_encoding', 'opforms'],
     'C14': ['r1cs_compress', 'r1cs_decompress', 'r1cs_elligator', 'r1cs_isqrt', 'r1cs_is_nonnegative', 'r1cs_is_negative', 'r1cs_abs', 'r1cs_alloc_witness'],
     'C12': ['ark_compress', 'ark_decompress', 'ark_elligator', 'min_compress', 'min_decompress', 'min_elligator', 'min_add', 'min_double',
             'min_neg', 'ark_eq', 'min_eq', 'ark_is_identity', 'min_is_identity'],
